@@ -284,6 +284,7 @@ static int recv_events(m_ctx_t *c, int timeout) {
             }
             err = errno; // Store any errno that happened while consuming events
             bool msg_consumed = false;
+            bool stale_oneshot = false;
 
             if (err == 0) {
                 /* 
@@ -294,8 +295,15 @@ static int recv_events(m_ctx_t *c, int timeout) {
                 if (p && p->flags & M_SRC_ONESHOT) {
                     if (p->type != M_SRC_TYPE_PS) {
                         m_bst_remove(mod->srcs[p->type], p);
-                    } else {
+                    } else if (m_map_get(mod->subscriptions, p->ps_src.topic) == p) {
                         m_map_remove(mod->subscriptions, p->ps_src.topic);
+                    } else {
+                        /*
+                         * This oneshot subscription already fired for an earlier message
+                         * (and the topic may have been subscribed anew since):
+                         * it fires at most once, drop the message.
+                         */
+                        stale_oneshot = true;
                     }
                 }
                 
@@ -304,7 +312,7 @@ static int recv_events(m_ctx_t *c, int timeout) {
                  * In this case, check that any message was actually received,
                  * and it was from a know source type.
                  */
-                if (msg->fd_evt) {
+                if (msg->fd_evt && !stale_oneshot) {
                     recved++;
                     if (msg->type != M_SRC_TYPE_PS || !msg->ps_evt->topic || strcmp(msg->ps_evt->topic, M_PS_MOD_POISONPILL)) {
                         push_evt(mod, evt);
